@@ -6,6 +6,7 @@ Case kinds (see coq/C16/Run.v and harness/C16.cpp):
  2 indices -> coordinates -> indices / rank         7 migrate grid -> points (cell assignment)
  3 query points: indices, rank, cell membership     8 iterator
  4 Grid::multiple / divider / dilate                9 Rotation object (matrix from cos/sin, direct / inverse)
+10 session: ONE Grid/DbGrid object answers a random sequence of const queries (history independence, C16_query_history_independent)
 """
 import sys, os, math, itertools
 sys.path.insert(0, os.path.dirname(__file__))
@@ -138,6 +139,118 @@ def rotdesc(gs, hv):
     if not is_rotated(gs, hv): return 'identity-rotation'
     return 'rotated'
 
+# ----------------------------------------------------------------------------- sessions (one object, many queries)
+TOOLS = {}
+QNAME = {0: 'getCoordinate', 1: 'getCoordinate', 20: 'rankToCoordinate', 2: 'rankToIndice', 3: 'indiceToRank', 4: 'coordinateToRank',
+         19: 'coordinateToRank', 5: 'coordinateToIndices', 6: 'getCoordinatesByRank', 9: 'rankToCoordinates', 18: 'getCoordinatesByRank',
+         7: 'getCoordinatesByIndice', 8: 'getCoordinatesByCorner', 10: 'sampleBelongsToCell', 11: 'getCenterIndices', 12: 'multiple',
+         13: 'divider', 14: 'dilate', 15: 'indicesToCoordinate', 16: 'getCellCoordinatesByCorner', 17: 'iterator',
+         21: 'indiceToCoordinate', 22: 'point_to_grid'}
+
+def gen_point(rng, gs, M, rotated):
+    nx = gs['nx']
+    r = rng.random()
+    if r < .8: u = [Fraction(rng.randint(-96, 64 * k + 32), 64) for k in nx]
+    else:      u = [Fraction(rng.randint(-1, k), 1) + rng.choice([Fraction(1, 2), Fraction(0), Fraction(1, 1024)]) for k in nx]
+    w = [a * b for a, b in zip(u, gs['dx'])]
+    if rotated: w = matvec(M, w)
+    return [dy(round_dy(a + b, 20)) for a, b in zip(w, gs['x0'])]
+
+def gen_session(rng, gs, hv, length=None):
+    """a random sequence of const queries on one grid; a few `focus' ranks are asked again and again, dimension by
+    dimension, between queries about other nodes and points"""
+    n = gs['n']; nx = gs['nx']; ntot = math.prod(nx)
+    M = grid_matrix(gs, hv); rotated = is_rotated(gs, hv)
+    L = length or rng.randint(5, 40)
+    focus = [rng.randrange(ntot) for _ in range(rng.randint(1, 3))]
+    def any_rank(): return rng.choice(focus) if rng.random() < .3 else rng.randrange(ntot)
+    def any_ind(): return [rng.randrange(k) for k in nx]
+    def other():
+        f = rng.choice([2, 3, 4, 19, 5, 6, 9, 18, 7, 8, 10, 11, 12, 13, 14, 15, 16, 17, 21, 22, 0, 1, 20])
+        if f in (0, 1, 20): return [f, any_rank(), rng.randrange(n)]
+        if f == 2: return [2, any_rank()]
+        if f == 3: return [3, any_ind()]
+        if f in (4, 19, 5): return [f, gen_point(rng, gs, M, rotated), rng.random() < .5, dy(rng.choice([EPS6, EPS6, 0., 1e-3]))]
+        if f in (6, 9, 18): return [f, any_rank()]
+        if f == 7: return [7, any_ind()]
+        if f == 8: return [8, [rng.choice([0, 1]) for _ in range(n)]]
+        if f == 10: return [10, gen_point(rng, gs, M, rotated), any_rank()]
+        if f == 11: return [11]
+        if f == 12: return [12, [min(rng.randint(1, 3), k) for k in nx], rng.random() < .6]
+        if f == 13: return [13, [rng.randint(1, 3) for _ in nx], rng.random() < .6]
+        if f == 14: return [14, [rng.randint(0, 2) for _ in nx], 1]
+        if f == 15: return [15, any_ind(), [dy(Fraction(rng.randint(-4, 3), 8)) for _ in nx] if rng.random() < .5 else []]
+        if f == 16: return [16, any_rank(), [rng.choice([-1, 0, 1]) for _ in nx]]
+        if f == 17: return [17, rng.randint(1, min(ntot + 1, 6))]
+        if f == 21: return [21, any_ind(), rng.randrange(n)]
+        return [22, gen_point(rng, gs, M, rotated)]
+    qs = []
+    for _ in range(L):
+        if rng.random() < .35: qs.append([rng.choice([0, 0, 1, 1, 20]), rng.choice(focus), rng.randrange(n)])
+        else: qs.append(other())
+    # the first focus rank is asked in every dimension (in random order, at random places): rank -> coordinates -> rank
+    for d in rng.sample(range(n), n):
+        qs.insert(rng.randint(0, len(qs)), [rng.choice([0, 1]), focus[0], d])
+    return qs
+
+def session_wrong(q, a_i, a_m, marg):
+    """None when the implementation's answer to query q agrees with the model's, else a short text"""
+    f = q[0]
+    try:
+        if f in (0, 1, 20, 21):
+            return None if close_enough(float(undy(a_i)), float(unq(a_m)), TOL) else 'impl %r, geometry %r' % (float(undy(a_i)), float(unq(a_m)))
+        if f in (6, 9, 18, 7, 8, 15, 16):
+            return None if vclose(vd(a_i), vq(a_m)) else 'impl %s, geometry %s' % ([float(x) for x in vd(a_i)], [float(x) for x in vq(a_m)])
+        if f in (2, 3, 11, 17):
+            return None if a_i == a_m else 'impl %s, model %s' % (a_i, a_m)
+        if f in (4, 19, 10):
+            if marg < TIE: return None
+            return None if a_i == a_m else 'impl %s, model %s' % (a_i, a_m)
+        if f in (5, 22):
+            if marg < TIE: return None
+            return None if a_i == a_m else 'impl %s, model %s' % (a_i, a_m)
+        if f in (12, 13, 14):
+            if a_i[0] == 0 or a_m[0] == 0: return None if a_i[0] == a_m[0] else 'impl ok=%s model ok=%s' % (a_i[0], a_m[0])
+            ok = a_i[1] == a_m[1] and vclose(vd(a_i[2]), vq(a_m[2])) and vclose(vd(a_i[3]), vq(a_m[3]))
+            return None if ok else 'impl %s / model %s' % ((a_i[1], [float(x) for x in vd(a_i[3])]), (a_m[1], [float(x) for x in vq(a_m[3])]))
+    except Exception as ex:
+        return 'malformed answer %r (%r)' % (a_i, ex)
+    return 'unknown query'
+
+def session_eval(ctx, G, sessions):
+    """runs several sessions on the same grid; returns for each the index of the first wrong answer (or None) and its text"""
+    cf = write_cases(ctx, 'session', [[10, G, qs] for qs in sessions])
+    _, im = run_impl(ctx, TOOLS['exe'], cf); _, mo = run_model(ctx, TOOLS['runner'], cf)
+    out = []
+    for k, qs in enumerate(sessions):
+        if k >= len(im) or k >= len(mo) or (im[k] and im[k][0] == -997) or len(im[k]) != len(qs) + 1:
+            out.append((len(qs) - 1, 'crash')); continue
+        bad = None
+        for p, q in enumerate(qs):
+            w = session_wrong(q, im[k][p], mo[k][p][0], unq(mo[k][p][1]))
+            if w: bad = (p, w); break
+        out.append(bad)
+    return out
+
+def session_shrink(ctx, G, qs, p):
+    """delta debugging on the query list: keep the wrong query last, drop as many earlier queries as possible"""
+    cur = qs[:p + 1]
+    for _ in range(40):
+        n = len(cur) - 1
+        if n == 0: break
+        cands = []
+        size = max(1, n // 2)
+        while True:
+            for st in range(0, n, size):
+                cands.append(cur[:st] + cur[st + size:])
+            if size == 1: break
+            size = max(1, size // 2)
+        res = session_eval(ctx, G, cands)
+        good = [c for c, r in zip(cands, res) if r is not None and r[0] == len(c) - 1]
+        if not good: break
+        cur = min(good, key=len)
+    return cur
+
 # ----------------------------------------------------------------------------- the check
 def run(ctx):
     quick = ctx.quick()
@@ -149,7 +262,8 @@ def run(ctx):
         print('ERROR: model runner or harness does not build'); sys.exit(3)
     rng = ctx.rng
     hv = Harvest()
-    st = {'found_input': False, 'ndis': 0}
+    st = {'found_input': False, 'ndis': 0, 'rt': []}
+    TOOLS['exe'] = exe; TOOLS['runner'] = runner
 
     def viol(key, text, replay, found=True):
         st['ndis'] += 1
@@ -235,6 +349,9 @@ def run(ctx):
         nshift = [rng.randint(0, 3) for _ in range(n)]
         if mode == -1: nshift = [min(s, (k - 1) // 2) for s, k in zip(nshift, nx)]
         add([4, G, 2, nshift, mode], kind=4, gs=gs)
+        # kind 10: sessions ----------------------------------------------
+        for _ in range(1 if quick else 2):
+            add([10, G, gen_session(rng, gs, hv)], kind=10, gs=gs)
         # kind 8 -------------------------------------------------------
         if ntot <= 300 and gi % 3 == 0:
             add([8, G, ntot + 2, []], kind=8, gs=gs)
@@ -274,6 +391,7 @@ def run(ctx):
             if rotated: w = matvec(M, w)
             pts.append([dy(round_dy(a + b, 20)) for a, b in zip(w, gs['x0'])])
         add([7, G, dy(EPS6), pts], kind=7, gs=gs)
+        add([10, G, gen_session(rng, gs, hv)], kind=10, gs=gs)
     # kind 9: Rotation objects
     for n, ang in rots:
         h = hv.got[hv.key(n, ang)]
@@ -303,9 +421,24 @@ def run(ctx):
             if ii is None: break
             continue
         try:
+            m['st'] = st
             compare(ctx, c, m, ii, mi, viol, hv)
         except (IndexError, TypeError, ValueError) as ex:
             viol('crash:kind%d' % kind, 'malformed answer of the implementation on case %d (%r)' % (i, ex), {'case': sx_str(c), 'impl': ii})
+    # second pass: the coordinates the sessions reported for a rank must lead back to that rank
+    if st['rt']:
+        rt = st['rt'][: (400 if quick else 4000)]
+        rcases = [[3, G, [[[dy(x) for x in co], False, dy(EPS6), r, [], [0] * len(co)]]] for G, r, co, _ in rt]
+        cf2 = write_cases(ctx, 'roundtrip', rcases)
+        _, im2 = run_impl(ctx, exe, cf2); _, mo2 = run_model(ctx, runner, cf2)
+        for k, (G, r, co, orig) in enumerate(rt):
+            if k >= len(im2) or k >= len(mo2) or (im2[k] and im2[k][0] == -997): continue
+            marg = unq(mo2[k][0][3])
+            if marg < TIE: ctx.cov['tie_excluded'] += 1; continue
+            ctx.count('10rt|%s|%d' % (sx_str(G), r))
+            if im2[k][0][2] != r:
+                viol('roundtrip:rank->coordinates->rank:session', 'the coordinates %s reported for rank %d during a session lead back to rank %d' % ([float(x) for x in co], r, im2[k][0][2]),
+                     {'case': orig, 'rank': r, 'reported_coordinates': [float(x) for x in co]})
     ctx.cov['disagreements'] = st['ndis']
     ctx.cov['rule'] = ('one evaluation = one conversion / derived grid / query compared between implementation, model and spec; grids 1-4 D with dyadic origin and mesh, '
                        'rotation none / exact angles / general angles (matrix harvested from the library) / rational matrices; distinct = distinct (grid, item) text; '
@@ -314,7 +447,8 @@ def run(ctx):
     ctx.notes += [
         'theorems: rank<->indices, indices<->coordinates (any dimension, any orthogonal rotation, eps ranges), cell containment + uniqueness, outside flag, rotation round trips, '
         'generated 2-D/3-D matrices are rotations, every node of coarsened / refined / dilated / sub-grids sits where documented (rotated grids and different nmult per axis included), '
-        'mirror index total for nx>=1, iterator with default and with any valid user order',
+        'mirror index total for nx>=1, iterator with default and with any valid user order; C16_query_history_independent ties the session cases (one object, 5-40 interleaved const queries, '
+        'delta-debugged on failure, keyed session:<wrong function>-after-<previous function>) to the pure model',
         'the corpus keeps the witnesses of the defects repaired in /repo (dilate, multiple/divider rotated, createSubGrid rotated) as regression cases; '
         'still open: migrate grid->point uses the corner-anchored cell (known finding migrate:grid-to-point:lower-corner-cell)',
         'not covered: Rotation::setMatrixDirect validity test (isMatrixRotation / determinant), angles recovered from a matrix (atan2), gridIndices / decodeGridSorting, '
@@ -560,6 +694,42 @@ def compare(ctx, c, m, ii, mi, viol, hv):
                 viol('iterator:user-order', 'iteratorInit(%s): iteratorNext returns %s, expected %s (order[0] is the fastest dimension)' % (order, ii[1], want), {'case': sx_str(c), 'expected': want})
             elif ii[1] != seq_m:
                 viol('model-drift:iterator:user-order', 'impl %s / model %s' % (ii[1], seq_m), {'case': sx_str(c)}, False)
+    elif kind == 10:
+        nx = G[0]; qs = c[2]; ntot = math.prod(nx)
+        if len(ii) != len(qs) + 1:
+            viol('crash:session', 'the session produced %d answers for %d queries' % (len(ii) - 1, len(qs)), {'case': sx_str(c)}); return
+        if ii[-1] != 1: viol('model-drift:rotation-matrix', 'the library does not use the rotation matrix given to the model', {'case': sx_str(c)}, False); return
+        bad = None
+        coords = {}      # rank -> {dim: value} from getCoordinate-like answers; rank -> full vector
+        for p, q in enumerate(qs):
+            marg = unq(mi[p][1])
+            decision = q[0] in (4, 19, 10, 5, 22)
+            if decision and marg < TIE: ctx.cov['tie_excluded'] += 1; ctx.count(None, False)
+            else: ctx.count('10|%s|%s' % (sx_str(G), sx_str(q)))
+            w = session_wrong(q, ii[p], mi[p][0], marg)
+            if w and bad is None: bad = (p, w)
+            f = q[0]
+            # the property on the answers themselves
+            if w is None and f == 2 and 0 <= q[1] < ntot and (not inrange(nx, ii[p]) or rank_of(nx, ii[p]) != q[1]) and bad is None:
+                bad = (p, 'rankToIndice(%d) = %s is not the node of that rank' % (q[1], ii[p]))
+            if w is None and f == 3 and inrange(nx, q[1]) and (not (0 <= ii[p] < ntot) or idx_of(nx, ii[p]) != q[1]) and bad is None:
+                bad = (p, 'indiceToRank(%s) = %s is not the rank of that node' % (q[1], ii[p]))
+            if f in (0, 1, 20) and 0 <= q[1] < ntot: coords.setdefault(q[1], {})[q[2]] = undy(ii[p])
+            if f in (6, 9, 18) and 0 <= q[1] < ntot: coords[q[1]] = dict(enumerate(vd(ii[p])))
+        if len(ctx.cov['samples']) < 6 and len(qs) > 8: ctx.sample({'session': sx_str(c)[:400], 'answers': str(ii)[:300]})
+        if bad is not None:
+            p, w = bad
+            small = session_shrink(ctx, G, qs, p)
+            fn = QNAME.get(small[-1][0], '?'); prev = QNAME.get(small[-2][0], '?') if len(small) > 1 else None
+            key = 'session:%s-after-%s' % (fn, prev) if prev else 'session:%s-alone' % fn
+            viol(key, 'one object, %d queries: the answer of %s%s is wrong: %s (shrunk from %d queries; the wrong query alone gives the right answer: %s)' % (
+                len(small), fn, ' right after ' + prev if prev else '', w, len(qs), 'yes' if prev else 'no'),
+                {'case': sx_str([10, G, small]), 'queries': [QNAME.get(q[0]) for q in small], 'original_case': sx_str(c)})
+            return
+        # rank -> coordinates (as answered in this session) -> rank is checked in a second pass on the implementation
+        for r, dct in coords.items():
+            if len(dct) == len(nx) and all(v is not None for v in dct.values()):
+                m['st']['rt'].append((G, r, [dct[d] for d in range(len(nx))], sx_str(c)))
     elif kind == 9:
         n = c[1]
         M_i, flag_i, Minv_i, vec_i = ii
